@@ -1,12 +1,14 @@
 """C02 - writers preserve every cue's start and end instant.
 
-Caption sets (integer microseconds on a carry grid, SCC-lattice floats, runs of equal spans, touching cues, two-layout
-captions) are written by the 7 writers (+ DFXPWriter with inline positioning = 8 configurations) through the public API.
-Timing tokens are extracted from the output by small block splitters (SRT, WebVTT, MicroDVD), lxml (DFXP) and
-html.parser (SAMI).  Property oracle: Coq ok_cues / ok_sami (coq/spec/SpecTimeW.v, requests 201 / 203) - independent
-token parsers (field widths, ranges, integer literals), cue structure per writer, accepted values of a time.
-Correspondence: the tokens predicted by the extracted model (coq/model/TimeWrite.v, requests 200 / 202) equal the
-tokens written.
+Caption sets (integer microseconds on a carry grid, SCC-lattice floats, int / float spellings, runs of equal spans,
+overlapping / unsorted / zero-length cues in EVERY language, node lists with up to 4 layout groups) are written by the 7
+writers in 15 configurations (options varied) through the public API.  Timing tokens of every language are extracted
+from the output by small tolerant block splitters (SRT, WebVTT, MicroDVD), lxml (DFXP) and html.parser (SAMI).  Property
+oracle: Coq ok_cues / ok_sami (coq/spec/SpecTimeW.v, requests 201 / 203) - independent token parsers (field widths,
+ranges, integer literals), accepted values of a time, cue structure as the statement words it (DFXP / MicroDVD exactly one
+cue per caption; SRT / legacy / single-position MAY merge equal spans; WebVTT MAY repeat a cue).  Correspondence: cue
+counts / SAMI sequences predicted by the extracted model (coq/model/TimeWrite.v, requests 200 / 202 / 205) equal what was
+written (a difference is a disagreement); spelling differences are counted.
 """
 import re
 from fractions import Fraction
